@@ -510,10 +510,8 @@ mod real {
         v.push(g(CHUNK + 1, rng, true));
         v.push(g(2 * CHUNK + 7, rng, true));
         if thorough {
-            v.push(g(2 * CHUNK, rng, true));
             v.push(g(3 * CHUNK, rng, true));
             v.push(g(3 * CHUNK + rng.usize(1, 4096), rng, true));
-            v.push(g(rng.usize(CHUNK + 2, 3 * CHUNK), rng, true));
         }
         let nsmall = if thorough { 40 } else { 8 };
         for _ in 0..nsmall {
@@ -589,8 +587,21 @@ mod real {
 
         let mut rng = Rng::new(args.seed);
         let t0 = std::time::Instant::now();
-        // ---- fixed corpus: the recorded witnesses on a 40-byte file and on a file of two chunks
+        // ---- fixed corpus: the recorded witnesses on a file of two chunks and on a 40-byte file
         {
+            let two = FileSpec { gen_seed: Some(2929), content: gen_file(2929, CHUNK + 5), pw: b"pw".to_vec() };
+            if let Some(l) = lock_case(&env, &two, true, &mut drv, &mut sum) {
+                let b1 = l.bounds[1];
+                for (label, recipe) in [
+                    ("trunc-at-boundary-or-prefix", format!("r0:{b1}")),
+                    ("trunc-at-boundary-or-prefix", format!("r0:{}", b1 + 2)),
+                    ("size-edit-plus-truncation", format!("r0:52,l{},r60:{}", le64(CHUNK as u64), b1 - 60)),
+                    ("oneshot-rewrap", format!("r0:44,l0000000000000000,l{},l00000000,r68:{}", le64(CHUNK as u64), CHUNK + 16)),
+                ] {
+                    let uc = UnlockCase { recipe: &recipe, pw: &two.pw, fast: true, old_present: false, label, ask_model: true };
+                    unlock_case(&env, &l, &uc, &mut drv, &mut sum, &known, false);
+                }
+            }
             let small = FileSpec { gen_seed: Some(29), content: gen_file(29, 40), pw: b"correct horse".to_vec() };
             if let Some(l) = lock_case(&env, &small, true, &mut drv, &mut sum) {
                 for (label, recipe) in [
@@ -602,19 +613,6 @@ mod real {
                     ("trunc-at-boundary-or-prefix", "r0:66".to_string()),
                 ] {
                     let uc = UnlockCase { recipe: &recipe, pw: &small.pw, fast: true, old_present: true, label, ask_model: true };
-                    unlock_case(&env, &l, &uc, &mut drv, &mut sum, &known, false);
-                }
-            }
-            let two = FileSpec { gen_seed: Some(2929), content: gen_file(2929, CHUNK + 5), pw: b"pw".to_vec() };
-            if let Some(l) = lock_case(&env, &two, true, &mut drv, &mut sum) {
-                let b1 = l.bounds[1];
-                for (label, recipe) in [
-                    ("trunc-at-boundary-or-prefix", format!("r0:{b1}")),
-                    ("trunc-at-boundary-or-prefix", format!("r0:{}", b1 + 2)),
-                    ("size-edit-plus-truncation", format!("r0:52,l{},r60:{}", le64(CHUNK as u64), b1 - 60)),
-                    ("oneshot-rewrap", format!("r0:44,l0000000000000000,l{},l00000000,r68:{}", le64(CHUNK as u64), CHUNK + 16)),
-                ] {
-                    let uc = UnlockCase { recipe: &recipe, pw: &two.pw, fast: true, old_present: false, label, ask_model: true };
                     unlock_case(&env, &l, &uc, &mut drv, &mut sum, &known, false);
                 }
             }
